@@ -23,6 +23,9 @@ C['C10'] = dict(engine='Spectra', ref='4/C10', technique='TLA+ spec (Spectra/Spe
 C['C11'] = dict(engine='Spectra', ref='4/C11', technique='TLA+ spec (Spectra/SpectraDef incl. the index-folding refinement) model-checked with TLC; enumerated grid and float instances pushed through holospectrum (3 squash modes) and validated against the spec by TLC',
    text='TLC checks that the implementation-shaped index folding (digitize, fold, reshape, trim) refines the per-sample joint histogram for independent carrier/AM bin sets, plus conservation and shape; the harness enumerates the same grid of first/second-level frequency and amplitude arrays, calls holospectrum with squash_time False/sum/mean, and TLC validates the full output and the sum / T*mean relations entry by entry; random float instances with harness-supplied bins.',
    note=TRUST + '; time-mean is validated as T*mean = sum in fixed point')
+C['C05'] = dict(engine='Extrema', ref='4/C05', technique='TLA+ spec (Extrema/ExtremaDef: strict extrema, parabolic vertices as exact rationals, numpy reflect-odd/edge padding incl. the repeat loop) model-checked with TLC; every enumerated signal pushed through get_padded_extrema / interp_envelope and validated against the spec by TLC',
+   text='TLC checks exactness of detected extrema, the padding-shape theorems (strictly increasing, interior untouched, added points strictly outside, coverage of the record) and reversal / sign / scale equivariance of the specified rule on EVERY sequence of length 3..9 (quick: 7) over a 3-level alphabet x pad widths 0..5 x 3 modes x parabolic on/off; the harness pushes the same domain through get_padded_extrema and interp_envelope(ret_extrema=True) for splrep / pchip / mono_pchip x upper / lower / combined and TLC validates locations (exact, 1/24 sample), magnitudes (exact, 1/96), envelope length, sampling grid and knot values; random float signals are validated with harness-found peak positions.',
+   note=TRUST + '; the sampling-grid classification rebuilds the scipy interpolant from the extrema the routine itself returned and compares at 1e-9; equivariance of scipy interpolants is trusted')
 NA = {}
 checks = []
 for i in ids:
